@@ -550,6 +550,11 @@ class PyReader:
                     return l - r
                 if isinstance(n.op, ast.Mult):
                     return l * r
+                if isinstance(n.op, ast.Pow) and abs(l) <= 10**6 and abs(r) <= 400:
+                    if r >= 0:
+                        return l ** r
+                    if l != 0:
+                        return num(Fraction(l) ** r)  # 10**-3: the number (Python's float, SymPy's Rational - the same value)
                 if isinstance(n.op, (ast.Mod, ast.FloorDiv)):
                     if r == 0:
                         raise Raised("ZeroDivisionError", getattr(n, "lineno", 0))
@@ -1142,6 +1147,9 @@ class PyReader:
             return max(args) if name == "max" else min(args)
         if name in ("list", "tuple") and len(args) == 1 and isinstance(args[0], PyIter) and name not in self.functions:
             return list(consume(args[0]))
+        if name in ("list", "tuple", "sorted") and len(args) == 1 and isinstance(args[0], dict) and not isinstance(args[0], PySet) and name not in self.functions \
+                and all(isinstance(k_, str) for k_ in args[0]):
+            return sorted(args[0]) if name == "sorted" else list(args[0])  # the keys, in insertion order
         if name in ("list", "tuple") and len(args) == 1 and isinstance(args[0], list):
             return list(args[0])
         if name == "zip":
